@@ -656,8 +656,11 @@ struct Engine
             case O_TSWP:
             {
                 pre_empty = m[t].el.empty();
+                std::vector<std::size_t> other_fixed = m[t].fixed;
+                if (o.a[1])
+                    for (auto& f : other_fixed) f = f == 2 ? 1 : 2;  // a temporary with different fixed sizes
                 L().in_lib = true;
-                Vec tmp = make_temp(0, 0, m[t].fixed, m[t].arena);
+                Vec tmp = make_temp(0, 0, other_fixed, m[t].arena);
                 L().in_lib = false;
                 using std::swap;
                 LIB(swap(*v[t], tmp));
@@ -665,6 +668,16 @@ struct Engine
                 if (v[t]->size() != 0 || !v[t]->empty())
                     report("VAL", "values", "swapped-in:size", "after swap with an empty vector size() == %zu",
                            v[t]->size());
+                {
+                    // swap exchanges the complete contents, the fixed sizes included
+                    auto now = lib_fixed_sizes(std::as_const(*v[t]), std::make_index_sequence<LS::NF>{});
+                    auto out = lib_fixed_sizes(std::as_const(tmp), std::make_index_sequence<LS::NF>{});
+                    for (std::size_t i = 0; i < LS::NF; ++i)
+                        if (now[i] != other_fixed[i] || out[i] != m[t].fixed[i])
+                            report("VAL", "values", "swapped:fixed-size",
+                                   "after swap get_fixed_size<%zu>() is %zu / %zu, expected %zu / %zu", i, now[i], out[i],
+                                   other_fixed[i], m[t].fixed[i]);
+                }
                 LIB(swap(tmp, *v[t]));
                 seen_pair_op = true;
                 break;
@@ -1826,7 +1839,11 @@ struct Engine
         const Vec& cs = S;
         std::vector<Region> shared = live_block_regions();
         shared.push_back(Region{reinterpret_cast<uintptr_t>(&S), reinterpret_cast<uintptr_t>(&S) + sizeof(Vec)});
-        const std::string before = canon(false);
+        // nothing of the library may be called between the operation under test and the recorded const operations: a
+        // lazily filled cache would be warmed by the harness and the write would never be seen
+        const std::string before = canon(false, false);
+        unsigned char object_before[sizeof(Vec)];
+        std::memcpy(object_before, static_cast<const void*>(&S), sizeof(Vec));
         const std::size_t n = m[0].el.size();
         fp_run("queries", shared, false,
                [&]
@@ -1937,7 +1954,8 @@ struct Engine
             with_copies("copy.destroy", [&](Vec& c) { Vec moved(std::move(c)); return static_cast<long>(moved.size()); });
         }
 #endif
-        if (canon(false) != before) report("C19", "footprint", "const-ops-change-state", "the const operations changed the state of the vector");
+        if (canon(false, false) != before || std::memcmp(object_before, static_cast<const void*>(&S), sizeof(Vec)) != 0)
+            report("C19", "footprint", "const-ops-change-state", "the const operations changed the bytes of the vector object or of its blocks");
         obs += ";fp" + std::to_string(fp_ops);
     }
     // erase on the copy is only exercised when it does not run into known finding K1 (overlapping relocation)
@@ -1960,7 +1978,9 @@ struct Engine
 #endif  // HX_FOOTPRINT
 
     // ---------------------------------------------------------------- canonical form
-    std::string canon(bool with_phase = true)
+    // with_library = false: only what the harness knows without calling into the library (model, allocator ledger,
+    // registry) - used around the recorded const operations of C19, which must not be preceded by unrecorded calls
+    std::string canon(bool with_phase = true, bool with_library = true)
     {
         HarnessScope hs;
         Hash128 h;
@@ -1995,7 +2015,7 @@ struct Engine
             for (auto f : m[t].fixed) h.u64(f);
             h.u64(m[t].el.size());
             for (auto& e : m[t].el) h.str(to_string(e));
-            if (m[t].moved) continue;
+            if (m[t].moved || !with_library) continue;
             const Vec& cv = *v[t];
             h.u64(cv.capacity());
             h.u64(cv.size());
@@ -2010,7 +2030,7 @@ struct Engine
             if (!xm[e].present) continue;
             h.str(to_string(xm[e].e));
             h.u64(static_cast<uint64_t>(xm[e].arena));
-            if (xm[e].moved) continue;
+            if (xm[e].moved || !with_library) continue;
             typename Vec::const_reference r{*x[e]};
             where(reinterpret_cast<uintptr_t>(r.data_begin()));
         }
@@ -2217,7 +2237,8 @@ struct Engine
                 }
 #endif
 #if HAVE_SWAP
-                out.push_back(mk(O_TSWP, 0));
+                out.push_back(mk(O_TSWP, 0, 0));
+                if (LS::NF > 0) out.push_back(mk(O_TSWP, 0, 1));
 #endif
 #if HAVE_CMP
                 out.push_back(mk(O_TCMP, 0));
